@@ -57,7 +57,7 @@ func init() {
 	register(&Property{
 		ID:      "C19",
 		NeedSSA: true,
-		Decided: "Narrow structural necessary conditions only: (siblings) the two entry points that write shredded variants (typed write path and row deconstruction) pass the same level context to the shared shredding implementation; (enum) the encoder, the size computation, the decoder and the shredded typed-write switch over the variant primitive and basic types cover every constant or fail loudly; (pagereset) the columnar leaf reader re-establishes every per-page field when it moves to a new page. (siblings, cont.) the sibling call sites of one callee fill each field of the literal they pass from the same source field of the same struct. (coladvance) a loop variable advanced by the result of a leaf-counting helper (numLeafColumns*) is advanced on every path around the loop. (windowreset) every slice field of the columnar variant reader's per-window scratch that some function grows by append is assigned by the scratch's reset.",
+		Decided: "Narrow structural necessary conditions only: (siblings) the two entry points that write shredded variants (typed write path and row deconstruction) pass the same level context to the shared shredding implementation; (enum) the encoder, the size computation, the decoder and the shredded typed-write switch over the variant primitive and basic types cover every constant or fail loudly; (pagereset) the columnar leaf reader re-establishes every per-page field when it moves to a new page. (siblings, cont.) the sibling call sites of one callee fill each field of the literal they pass from the same source field of the same struct. (coladvance) a loop variable advanced by the result of a leaf-counting helper (numLeafColumns*) is advanced on every path around the loop. (windowreset) every slice field of the columnar variant reader's per-window scratch that some function grows by append is assigned by the scratch's reset. (arenawindow) a function that takes a window x.f[a:b] of a slice field, then calls something that may store a new backing array into the same field (make or append, directly or through static callees, typically itself by recursion on a nested value) and keeps using the window, does not touch the elements of the field through the field again (only the truncation stored straight back, len and cap): after the move the window and the field are different arrays.",
 		NotDecided: "equality of decoded values, metadata dictionaries, offsets inside nested arrays and objects, shredding and reconstruction — entirely value-dependent.",
 		Assumptions: []string{"see DESIGN.md §4 C19"},
 		Run:         runC19,
@@ -884,6 +884,7 @@ func runC19(c *Ctx) {
 	}
 	c.Min(rule, 7)
 	runGrownResetRule(c, "C19.windowreset", "variantLeafWindow", "(*variantLeafWindow).reset", 5)
+	runArenaWindowRule(c, "C19.arenawindow", 1) // five windows today; a rewrite without a window is legitimate, so only vacuity is guarded
 }
 
 // c01LazyBuffer: the column buffer of a column writer is created lazily by
